@@ -1,5 +1,10 @@
-"""Per-property configuration of ./check: names of correspondence stages and sub-properties
-(the numbers the Coq side reports), the non-triviality rule, extra trusted-base entries."""
+"""Per-property configuration of ./check, one JSON file per property under props.d/:
+names of correspondence stages and sub-properties (the numbers the Coq side reports), the
+non-triviality rule, the claim text for MANIFEST.json, extra trusted-base entries.
+A file with "claim": "dev" is a development stage and is not listed in MANIFEST.json."""
+import glob, json, os
+
+ROOT = os.path.dirname(os.path.abspath(__file__))
 
 COMMON_TRUSTED = [
     "Coq 8.16.1 kernel incl. the vm_compute reduction machine (no native_compute, no extraction)",
@@ -7,37 +12,12 @@ COMMON_TRUSTED = [
     "the Rust harness (generators, value printers, LSP client) and the python driver ./check",
 ]
 
-LIB_STAGES = {
-    "1": "arena after import (every slot: kind, prev, next, child, line)", "2": "title cache (get_key_title)",
-    "3": "collected tree per note (Graph::collect, with ids)", "4": "formatted text per note (Graph::to_markdown)",
-    "5": "line -> node map (get_node_id_at for every line)", "6": "second formatting: update_key(formatted text) then to_markdown",
-}
+PROPS = {}
+for f in sorted(glob.glob(os.path.join(ROOT, "props.d", "*.json"))):
+    PROPS[os.path.basename(f)[:-5]] = json.load(open(f))
 
-PROPS = {
-    "C01": dict(level="proof", claim="dev", note="", stages=LIB_STAGES, props={}, rule="dev"),
-    "C02": dict(level="proof", claim="dev", note="", stages=LIB_STAGES, props={}, rule="dev"),
-    "C06": dict(level="proof", claim="dev", note="", stages=LIB_STAGES, props={}, rule="dev"),
-    "C07": dict(level="proof", claim="dev", note="", stages=LIB_STAGES, props={}, rule="dev"),
-    "NORM": dict(level="proof", claim="development stage", note="", stages=LIB_STAGES, props={"1":"fixpoint","2":"skeleton","3":"well nested","4":"identity"}, rule="dev"),
-    "LIB": dict(level="proof", claim="development stage", note="", stages=LIB_STAGES, props={}, rule="dev"),
-    "C15": dict(
-        level="proof",
-        claim="Theorem C15_roundtrip (Rocq, closed under the global context): for every key and every linking directory given as segment lists of any length and in any relation, from_rel_link_url (to_rel_link_url K D) D = K, about a model of liwe::model::Key and of the relative-path crate functions it calls; every run compares 14 model functions with the real Key API / crate on an exhaustive small scope plus random deep and hostile paths and evaluates the round-trip predicates on the implementation's own results. A theorem is the right level because the claim is an algebraic law over all path pairs.",
-        note="Trusted: Coq kernel + vm_compute; the hand model of Key/relative-path is validated by differential execution, not verified; canonical-key hypothesis (segments non-empty, no `/`, not `.`/`..`, key not ending in `.md`). The rewrite law (sub-property 2) is checked on observations only until its theorem is added.",
-        stages={
-            "1": "Key::to_rel_link_url", "2": "from_rel(to_rel(K,D),D)", "3": "Key::from_rel_link_url",
-            "4": "rewrite of a resolved url", "5": "Key::parent (keys)", "6": "Key::parent (arbitrary text)",
-            "7": "Key::from_file_name", "8": "Key::to_path", "9": "is_ref_url",
-            "10": "relative-path join", "11": "relative-path join_normalized", "12": "relative-path relative",
-            "13": "relative-path normalize", "14": "link from a note's own directory",
-        },
-        props={
-            "1": "the link written for K from D resolves, from D, back to K",
-            "2": "resolving a url and re-writing it from the same directory names the same note",
-            "3": "the link written from a note's own directory resolves to the note",
-        },
-        rule="exhaustive (key, directory) pairs over <= 3 segments of a 3-name alphabet (1 560) with rotating `.`/`..`/`.md` url forms, every url form against 3 directories, plus seeded random deeper / hostile paths; inputs are de-duplicated, non-trivial = canonical key and non-empty directory different from the key",
-        trusted=["relative-path 1.9.3 is modelled from its source (components, relative_traversal, push/pop, join, join_normalized, relative, parent) and compared function by function on every run"],
-        assumptions=["keys are canonical (`/`-joined non-empty segments other than `.`/`..`, not ending in `.md`), which is what Key::from_file_name / the fs loader produce"],
-    ),
-}
+# reasons for properties that are not claimed (MANIFEST.not_applicable)
+NOT_CLAIMED = {}
+_nc = os.path.join(ROOT, "not_claimed.json")
+if os.path.exists(_nc):
+    NOT_CLAIMED = json.load(open(_nc))
